@@ -177,15 +177,62 @@ func c18Obligations(w *World, ex *Exec) {
 	if kp := w.pkgs[repoPrefix+"/keeper"]; kp != nil {
 		if kt := kp.Type("Keeper"); kt != nil {
 			st := kt.Type().Underlying().(*types.Struct)
-			var fields []string
+			// a field that can hold mutable state shared between calls (map, slice, pointer, channel, function) could be a
+			// cache; interfaces (the injected services) and immutable scalars cannot
+			var fields, bad []string
 			for i := 0; i < st.NumFields(); i++ {
-				fields = append(fields, st.Field(i).Name()+" "+typeShort(st.Field(i).Type()))
+				f := st.Field(i)
+				fields = append(fields, f.Name()+" "+typeShort(f.Type()))
+				if !immutableFieldType(f.Type(), 0) {
+					bad = append(bad, f.Name()+" "+typeShort(f.Type()))
+				}
 			}
-			want := "cdc codec.BinaryCodec; logger log.Logger; storeService store.KVStoreService; bank types.BankKeeper; fiattokenfactory types.FiatTokenfactoryKeeper"
-			got := strings.Join(fields, "; ")
-			add("keeper.Keeper#pure@fields", got == want, "Keeper struct fields are: "+got)
+			add("keeper.Keeper#pure@fields", len(bad) == 0, "Keeper fields that can hold state between calls: "+strings.Join(bad, "; ")+" (all fields: "+strings.Join(fields, "; ")+")")
+			// no method writes a keeper field after construction
+			var fw []string
+			for _, fn := range fns {
+				if fn.Name() == "NewKeeper" {
+					continue
+				}
+				for _, b := range fn.Blocks {
+					for _, in := range b.Instrs {
+						if x, ok := in.(*ssa.Store); ok {
+							if fa, ok := x.Addr.(*ssa.FieldAddr); ok {
+								if pt, ok := fa.X.Type().Underlying().(*types.Pointer); ok && types.Identical(pt.Elem(), kt.Type()) {
+									if _, local := fa.X.(*ssa.Alloc); !local || fa.X.(*ssa.Alloc).Heap {
+										fw = append(fw, fnName(fn)+" writes Keeper."+st.Field(fa.Field).Name()+" at "+posOf(w.prog, x.Pos()))
+									}
+								}
+							}
+						}
+					}
+				}
+			}
+			add("keeper.Keeper#pure@field-write", len(fw) == 0, strings.Join(fw, "; "))
 		}
 	}
 	ex.extra["c18_functions_scanned"] = len(fns)
 	ex.extra["c18_instructions_scanned"] = nInstr
+}
+
+func immutableFieldType(t types.Type, depth int) bool {
+	if depth > 4 {
+		return false
+	}
+	switch u := t.Underlying().(type) {
+	case *types.Basic:
+		return u.Kind() != types.UnsafePointer
+	case *types.Interface:
+		return true
+	case *types.Struct:
+		for i := 0; i < u.NumFields(); i++ {
+			if !immutableFieldType(u.Field(i).Type(), depth+1) {
+				return false
+			}
+		}
+		return true
+	case *types.Array:
+		return immutableFieldType(u.Elem(), depth+1)
+	}
+	return false
 }
